@@ -588,7 +588,22 @@ Proof.
   pose proof (gslot_mono E B2 (B1 + B2) f ls ltac:(lia) Gl) as KeepL.
   unfold merge_slot in H.
   destruct (f_label f) eqn:EL.
-  - inversion H; subst s. exact KeepL.
+  - (* required: a sub-message is merged (both are set), anything else keeps the latter *)
+    destruct (f_type f) eqn:ET; try (inversion H; subst s; exact KeepL).
+    destruct es as [eh ev|ne ce ae|ge]; destruct ls as [lh lv|nl cl al|gl]; try discriminate H.
+    cbn [slot_all] in HQ.
+    cbn [slot_shape] in Se, Sl. rewrite !andb_true_iff in Se, Sl. destruct Se as [_ Ce]. destruct Sl as [_ Cl].
+    unfold cell_shape in Ce, Cl. rewrite ET in Ce, Cl.
+    cbn [gslot] in Ge, Gl. rewrite EL in Ge, Gl. cbn [label_eqb] in Ge, Gl.
+    apply andb_true_iff in Ge, Gl. destruct Ge as [Ge Re], Gl as [Gl Rl].
+    unfold req_set in Re, Rl. rewrite ET in Re, Rl.
+    destruct ev as [| | |[em|]]; try discriminate Re; destruct lv as [| | |[lm|]]; try discriminate Rl.
+    destruct (mrg em lm) as [m|e1] eqn:Em; cbn [bind] in H; [|discriminate H]. inversion H; subst s.
+    cbn [gslot]. rewrite EL. cbn [label_eqb]. unfold req_set. rewrite ET. rewrite andb_true_r.
+    apply andb_true_iff in Ce, Cl. destruct Ce as [Se De], Cl as [Sl Dl]. apply Nat.eqb_eq in De, Dl.
+    unfold gcell in Ge, Gl |- *. rewrite ET in Ge, Gl |- *. apply andb_true_iff in Ge, Gl.
+    rewrite (HQ lm eq_refl em m Se Sl ltac:(congruence) (proj1 Ge) (proj1 Gl) Em). cbn [andb].
+    apply Nat.eqb_eq. rewrite (merge_desc E em lm m Em). exact Dl.
   - (* optional *)
     destruct es as [eh ev|ne ce ae|ge]; destruct ls as [lh lv|nl cl al|gl]; try discriminate H;
       [|inversion H; subst s; exact KeepL].
